@@ -116,8 +116,12 @@ def run(ctx, idx):
         for n in own_nodes(fi.node):
             if isinstance(n, ast.For) and any(c is x for x in ast.walk(n)) and isinstance(n.target, ast.Name):
                 loopvar = n.target.id
-        a = [K.src(x) for x in c.args]
-        fv = K.src(next(k.value for k in c.keywords if k.arg == "fill_value"))
+        # netCDF4: createVariable(varname, datatype, dimensions=(), ..., fill_value=None) - positional or keyword
+        kws = {k.arg: k.value for k in c.keywords if k.arg}
+        pos = list(c.args)
+        a_nodes = [pos[0] if len(pos) > 0 else kws.get("varname"), pos[1] if len(pos) > 1 else kws.get("datatype")]
+        a = [K.src(K.expand(fi, x)) if x is not None else "" for x in a_nodes]
+        fv = K.src(K.expand(fi, kws["fill_value"]))
         ok = loopvar is not None and len(a) >= 2 and a[0] == "%s.result_name" % loopvar and a[1].startswith("%s.result.dtype" % loopvar) and fv == "%s.result.fill_value" % loopvar
         ctx.ob("C18.d", con, d.module.rel, c.lineno, ok, "name, dtype and fill value all come from the result being written" if ok else "name/dtype/fill value do not all come from the same result: createVariable(%s, fill_value=%s)" % (", ".join(a[:2]), fv))
     # ---- e
